@@ -4,7 +4,7 @@
  *   P M n  r0 i0 ... rn in        new context + monomial polynomial (degree 0 first), installed as input polynomial
  *   P C n  r0 i0 ... rn in        Chebyshev-basis polynomial
  *   P S n  ar0 ai0 br0 bi0 ...    secular equation sum a_i/(x-b_i) - 1
- *        -> "P type degree density prec n zero_roots"
+ *        -> "P type degree density n zero_roots"
  *   NF xr xi                      mps_polynomial_fnewton at the double point x (rationals that ARE doubles)
  *        -> "NF again status corr_re corr_im rad"                  (16 hex digit IEEE patterns)
  *   ND mr er mi ei                mps_polynomial_dnewton at x = mr*2^er + i mi*2^ei
@@ -15,7 +15,7 @@
  *   RD m e m e ... (n points)     mps_dradii   -> "RD rad0 ..."
  *   RM prec x0r x0i ...           mps_mradii   -> "RM wp rad0 ..."   (entries never written: "unset")
  *   SR phase prec                 secular only: approximations := b_i, radii := max, lastphase := phase (d|m),
- *                                 mps_secular_set_radii  -> "SR wp rad0 ..."  (root[i]->drad afterwards)
+ *                                 mps_secular_set_radii  -> "SR wp re0 im0 rad0 ..."  (root[i]->mvalue, root[i]->drad afterwards)
  *   "<cmd> NOIMPL" when the polynomial type has no such primitive.
  * Before every Newton call the radius of the approximation is the largest representable value (the primitives
  * only ever lower it or overwrite it): "max" is printed when it is still that value afterwards (= no claim).
@@ -90,7 +90,7 @@ int main (void)
           mps_context_set_input_poly (ctx, poly);
           mps_allocate_data (ctx);
           for (i = 0; i < ctx->n; i++) { ctx->root[i]->frad = DBL_MAX; rdpe_set (ctx->root[i]->drad, RDPE_MAX); }
-          printf ("P %c %d %d %ld %d %d\n", kind, (int)poly->degree, (int)poly->density, (long)poly->prec, ctx->n, ctx->zero_roots);
+          printf ("P %c %d %d %d %d\n", kind, (int)poly->degree, (int)poly->density, ctx->n, ctx->zero_roots);
         }
       else if (!poly) { fprintf (stderr, "c04_radius: no polynomial\n"); return 3; }
       else if (!strcmp (c, "NF"))
@@ -210,9 +210,10 @@ int main (void)
       else if (!strcmp (c, "SR"))
         {
           char ph = tok ()[0]; long prec = atol (tok ());
-          mps_secular_equation *sec;
+          mps_secular_equation *sec, *keep;
           if (!MPS_IS_SECULAR_EQUATION (poly)) { printf ("SR NOIMPL\n"); continue; }
           sec = MPS_SECULAR_EQUATION (poly);
+          keep = ctx->secular_equation;
           ctx->secular_equation = sec;
           set_prec (prec);
           for (i = 0; i < ctx->n; i++)
@@ -229,8 +230,10 @@ int main (void)
           mps_cluster_reset (ctx);
           ctx->lastphase = (ph == 'm') ? mp_phase : dpe_phase;
           mps_secular_set_radii (ctx);
+          ctx->secular_equation = keep;
           printf ("SR %ld", (long)ctx->mpwp);
-          for (i = 0; i < ctx->n; i++) out_rad_rdpe (ctx->root[i]->drad);
+          for (i = 0; i < ctx->n; i++)
+            { out_mpf (mpc_Re (ctx->root[i]->mvalue)); out_mpf (mpc_Im (ctx->root[i]->mvalue)); out_rad_rdpe (ctx->root[i]->drad); }
           printf ("\n");
         }
       else { fprintf (stderr, "c04_radius: unknown command %s\n", c); return 3; }
